@@ -1,6 +1,18 @@
 """Property -> packs, bounded stand-ins, native replay harness, notes (read by pyvc.check)."""
 
 REGISTRY = {
+    "C15": dict(
+        packs=["c15"],
+        level="proof",
+        replay=dict(script="replay/c15.py", args=["search", "12"], timeout=600),
+        bounded=[dict(name="n_jobs-small-scope", script="replay/c15.py", args=["search", "12"],
+                      bound="n_jobs in -12..12 x cpus in {1,2,3,8} x 4 backends x nesting level {0,1,None}; nested backends to depth 4; "
+                            "loky cpu_count on 192 environment combinations")],
+        trusted=["a pool / executor created with size k runs at most k tasks at once (ThreadPool, multiprocessing, loky)"],
+        assumptions=["Parallel.__call__'s n_jobs == 1 sequential branch is under contract in the dispatcher pack (C01), not here",
+                     "os.sched_getaffinity / cgroup readers / physical-core probes are externals (arbitrary integers)"],
+        undecided_clauses=["'never executes more tasks simultaneously' is reduced to 'every pool is created with exactly the resolved n_jobs'; the pools' own concurrency bound is assumed"],
+    ),
     "C18": dict(
         packs=["c18"],
         level="proof",
@@ -24,6 +36,16 @@ NOT_APPLICABLE = {
 }
 
 MANIFEST_TEXT = {
+    "C15": dict(
+        text="Loop-free integer contracts proved for all integers n_jobs and all cpu counts >= 1: every effective_n_jobs "
+             "(PoolManagerMixin, Sequential, Multiprocessing, Loky) returns n_jobs when positive, max(cpus+1+n_jobs, 1) when negative, "
+             "raises ValueError exactly for 0, is >= 1 and is 1 in daemon / below-loky / non-main-thread nesting; each configure creates its "
+             "pool or executor with exactly that number or raises FallbackToBackend(SequentialBackend) when it is 1; the executor factory passes "
+             "n_jobs through unchanged; get_nested_backend gives threads at level 0 and sequential deeper, never processes; loky cpu_count >= 1 and "
+             "bounded by affinity and LOKY_MAX_CPU_COUNT.",
+        note="Assumed: pools honour their size; environment probes (affinity, cgroup, daemon flag, thread identity) are arbitrary symbols; "
+             "int() of LOKY_MAX_CPU_COUNT parses. Native enumeration is a replay aid (bounded), not counted as proof.",
+    ),
     "C18": dict(
         text="Unbounded proof (inductive loop invariant with prefix sums and a quantified minimality clause) that "
              "_get_items_to_delete returns exactly the shortest prefix of the stable LRU order meeting byte, item and age limits, "
